@@ -319,3 +319,20 @@ package ir
 //@   loop 1 invariant [switch-ctx] v.context.switchDepth == old(v.context.switchDepth) + 1 && v.context.loopDepth == old(v.context.loopDepth) && v.context.ownContinuing == old(v.context.ownContinuing) && v.context.inContinuing == old(v.context.inContinuing) && v.context.function == old(v.context.function)
 //@   at (*Validator).validateBlock#5 assert [loop-body-ctx] is(stmt.Kind, StmtLoop) && !v.context.ownContinuing
 //@   at (*Validator).validateBlock#6 assert [loop-continuing-ctx] is(stmt.Kind, StmtLoop) && v.context.ownContinuing && v.context.inContinuing
+
+// ---- the module handed to override resolution shares nothing it rewrites (C12, C14) ----
+//
+// ProcessOverrides rewrites, in place, the statements of every function of the
+// module it is given (remapBlockHandles writes block[i].Kind in nested blocks
+// and writes through the optional-handle cells *Value, *Result, *BreakIf, ...).
+// CloneModuleForOverrides is what protects the caller's module, so the copy
+// must not share a nested block or an optional-handle cell with its source.
+// The clauses name the simplest shared parts: the Value cell of a top-level
+// return statement and the Accept block of a top-level if.
+//
+//@ func CloneModuleForOverrides
+//@   mode bv
+//@   tags C12 C14
+//@   requires [src] src != nil
+//@   ensures [return-cell-not-shared] forall i int :: forall j int :: 0 <= i && i < len(src.Functions) && 0 <= j && j < len(src.Functions[i].Body) && is(src.Functions[i].Body[j].Kind, StmtReturn) && src.Functions[i].Body[j].Kind.(StmtReturn).Value != nil && i < len(result.Functions) && j < len(result.Functions[i].Body) && is(result.Functions[i].Body[j].Kind, StmtReturn) ==> result.Functions[i].Body[j].Kind.(StmtReturn).Value != src.Functions[i].Body[j].Kind.(StmtReturn).Value
+//@   ensures [nested-block-not-shared] forall i int :: forall j int :: 0 <= i && i < len(src.Functions) && 0 <= j && j < len(src.Functions[i].Body) && is(src.Functions[i].Body[j].Kind, StmtIf) && len(src.Functions[i].Body[j].Kind.(StmtIf).Accept) > 0 && i < len(result.Functions) && j < len(result.Functions[i].Body) && is(result.Functions[i].Body[j].Kind, StmtIf) ==> fresh(result.Functions[i].Body[j].Kind.(StmtIf).Accept)
